@@ -24,6 +24,7 @@ import (
 	"path/filepath"
 	"strings"
 	"syscall"
+	"time"
 
 	"github.com/magisterquis/curlrevshell/lib/sstls"
 	"github.com/magisterquis/curlrevshell/verifx/ev"
@@ -225,6 +226,16 @@ func c08(r *ev.Result, tier string) {
 		{"dash", func(byte) byte { return '-' }},
 		{"A", func(byte) byte { return 'A' }},
 		{"NUL", func(byte) byte { return 0 }},
+		{"plus-one", func(b byte) byte { return b + 1 }},
+		{"minus-one", func(b byte) byte { return b - 1 }},
+		{"flip-bit1", func(b byte) byte { return b ^ 2 }},
+		{"flip-bit2", func(b byte) byte { return b ^ 4 }},
+		{"flip-bit3", func(b byte) byte { return b ^ 8 }},
+		{"flip-bit4", func(b byte) byte { return b ^ 16 }},
+		{"flip-bit5", func(b byte) byte { return b ^ 32 }},
+		{"0", func(byte) byte { return '0' }},
+		{"z", func(byte) byte { return 'z' }},
+		{"slash", func(byte) byte { return '/' }},
 	}
 	nDamage, served, failed := 0, 0, 0
 	regions := map[string]int{}
@@ -275,6 +286,37 @@ func c08(r *ev.Result, tier string) {
 	nHist := c08Histories(r, base, depth, v)
 	r.Set("histories", nHist)
 
+	/* (c') restarts of a cache whose certificate has a short life: the
+	identity is the file's, whatever the clock says. */
+	for _, life := range []time.Duration{time.Nanosecond, time.Second, time.Hour} {
+		dir, _ := os.MkdirTemp(base, "life-")
+		cache := filepath.Join(dir, "cert.txtar")
+		cs := c08Case{Kind: "history", Hist: fmt.Sprintf("start(lifespan %v) start start", life)}
+		vos.Reset()
+		c1, err := sstls.GetCertificate("", nil, nil, life, cache)
+		if nil != err {
+			v("lifespan/generate-failed", err.Error(), cs)
+			continue
+		}
+		time.Sleep(2 * time.Millisecond)
+		before, _ := os.ReadFile(cache)
+		for k := 0; k < 2; k++ {
+			vos.Reset()
+			c2, err := sstls.GetCertificate("", nil, nil, life, cache)
+			after, _ := os.ReadFile(cache)
+			switch {
+			case nil != err:
+				v("lifespan/restart-failed", fmt.Sprintf("lifespan %v: restart %d on the cache fails: %v", life, k+1, err), cs)
+			case !bytes.Equal(before, after) || 0 != len(vos.Log):
+				v("lifespan/existing-file-rewritten", fmt.Sprintf("lifespan %v: restart %d rewrote the existing cache file", life, k+1), cs)
+			case c08KeyID(c2.Leaf) != c08KeyID(c1.Leaf):
+				v("lifespan/identity-changed", fmt.Sprintf("lifespan %v: restart %d presents another key than the run that created the file", life, k+1), cs)
+			}
+		}
+		nHist++
+		os.RemoveAll(dir)
+	}
+
 	/* (d) nesting x umask, modes at every step. */
 	nDirs := 0
 	for _, um := range []int{0, 0o022, 0o077} {
@@ -314,7 +356,7 @@ func c08(r *ev.Result, tier string) {
 	r.Evaluations = nCrash + nDamage + nHist + nDirs
 	r.Distinct = r.Evaluations
 	r.Rule = fmt.Sprintf("(a) every crash point of the write path %v: before each mutating call and after every byte count 0..n of WriteFile, each followed by a recovery run and a real (in-memory) TLS handshake; "+
-		"(b) every byte offset of a complete cache file x 6 replacements, by region (comment, cert marker, cert PEM, key marker, key PEM); (c) every history of <=%d operations over {start, start without cache, delete cache, torn write at 3 lengths}; "+
+		"(b) every byte offset of a complete cache file x 16 replacements (every single-bit flip of the low six bits and the top bit, +1, -1, and six fixed characters), by region (comment, cert marker, cert PEM, key marker, key PEM); (c) every history of <=%d operations over {start, start without cache, delete cache, torn write at 3 lengths}; "+
 		"(d) nesting depth 0..4 of missing directories x umask {0, 022, 077} with modes checked after every step", opKinds, depth)
 	r.Sample(4, c08Case{Kind: "crash", AtOp: len(log0) - 1, Bytes: len(file0) / 2})
 	r.Sample(4, c08Case{Kind: "damage", Offset: len(file0) - 40, Repl: "flip-bit0"})
